@@ -23,6 +23,9 @@ import Mathlib.Tactic.NormNum
   end `bad` and its representatives have pairwise different component labels.
 * `law_clusterKT` — **law = kernel**: on a canonical-tag configuration of `cfgSpace H N L` whose skeleton
   is `TravOK`, `law (clusterKT ½ fz c) = clusterK (ClusterFamily.ofModel …) c`.
+* `flipsK_perm`, `clusterK_ofModel_eq_ofComponents` — if the flips the update offers are, up to order, the
+  component flips (`componentFlips` of `KernelInvarianceComponents.lean`), its kernel is
+  `clusterK (ClusterFamily.ofComponents …)`, the kernel of `Kernel.ising_timestep_invariant`.
 -/
 
 open Finset
@@ -608,5 +611,44 @@ theorem law_clusterKT (fz : Nat → Bool) (H : Ham) (N L : Nat) (hV : VarsOK H N
         exact (ClusterFamily.ofModel (fun o => fz o.bond) H N L hV).closed _ _ hf a ha.1 ha.2.1
       · rw [← e1]
         exact (ClusterFamily.ofModel (fun o => fz o.bond) H N L hV).skeleton_eq hf ha.1 ha.2.1
+
+/-! ### the update's family vs. the component family -/
+
+theorem commuting_perm {α : Type} {l1 l2 : List (Rat × (α → α))} (h : l1.Perm l2) (hc : Commuting l1) :
+    Commuting l2 :=
+  fun x hx y hy => hc x (h.symm.subset hx) y (h.symm.subset hy)
+
+/-- the order of pairwise commuting flips does not matter -/
+theorem flipsK_perm {α : Type} [DecidableEq α] {l1 l2 : List (Rat × (α → α))} (h : l1.Perm l2) :
+    Commuting l1 → ∀ a b, flipsK l1 a b = flipsK l2 a b := by
+  induction h with
+  | nil => intro _ a b; rfl
+  | cons x _ ih =>
+    intro hc a b
+    simp only [flipsK]
+    rw [ih hc.tail a b, ih hc.tail (x.2 a) b]
+  | swap x y l =>
+    intro hc a b
+    simp only [flipsK]
+    have := hc x (by simp) y (by simp) a
+    rw [this]
+    ring
+  | trans h1 _ ih1 ih2 =>
+    intro hc a b
+    rw [ih1 hc a b, ih2 (commuting_perm h1 hc) a b]
+
+/-- **if the flips the update offers are, up to order, the flips of the components** (`componentFlips`:
+one per flippable component, resp. the single flip of everything) — i.e. if the traversal is complete
+and its notion of a frozen cluster agrees with `ComponentFreeSk` on this skeleton — **the cluster kernel of
+the update's own family is the cluster kernel of `ClusterFamily.ofComponents`** of `KernelInvariance` -/
+theorem clusterK_ofModel_eq_ofComponents (fr : SkOp → Bool) (H : Ham) (N L : Nat) (hV : VarsOK H N)
+    (c c' : Config) (hperm : (modelFlips fr (skeleton c.slots)).Perm (componentFlips fr (skeleton c.slots))) :
+    clusterK (ClusterFamily.ofModel fr H N L hV) c c' =
+      clusterK (ClusterFamily.ofComponents fr H N L hV) c c' := by
+  unfold clusterK fiberK
+  refine flipsK_perm ?_ (clusterFlipList_comm _ _) c c'
+  unfold clusterFlipList
+  rw [ofModel_flips, ClusterFamily.ofComponents_flips]
+  exact hperm.map _
 
 end Qmc.Law
